@@ -674,9 +674,12 @@ static int cif_value_clone_table(struct table_value_s *value, struct table_value
 #define uthash_fatal(msg) FAIL(hash, CIF_MEMORY_ERROR)
                         HASH_ADD_KEYPTR(hh, temp.map.head, new_entry->key, U_BYTES(new_entry->key), new_entry);
                         continue;
+
+                        FAILURE_HANDLER(hash):
+                        CIF_HASH_ADD_UNDO(hh, temp.map.head, new_entry);
+                        cif_value_clean(new_value);
                     }
 
-                    FAILURE_HANDLER(hash):
                     free(new_entry->key_orig);
                 }
                 free(new_entry->key);
@@ -833,7 +836,7 @@ static int cif_table_deserialize(struct table_value_s *table, read_buffer_tp *bu
                     entry->key = key;
                     entry->key_orig = ((key_orig == NULL) ? key : key_orig);
 #undef  uthash_fatal
-#define uthash_fatal(msg) DEFAULT_FAIL(hash)
+#define uthash_fatal(msg) FAIL(hash, CIF_MEMORY_ERROR)
                     HASH_ADD_KEYPTR(hh, temp.as_table.map.head, entry->key, U_BYTES(entry->key), entry);
                     break;
                 default:
@@ -843,6 +846,7 @@ static int cif_table_deserialize(struct table_value_s *table, read_buffer_tp *bu
     }
 
     FAILURE_HANDLER(hash):
+    CIF_HASH_ADD_UNDO(hh, temp.as_table.map.head, entry);
     cif_value_free(&(entry->as_value));
 
     FAILURE_HANDLER(value):
